@@ -1,13 +1,14 @@
 #!/usr/bin/env python3
 """Regression of detection: apply every seeded/<id>/patch.diff to /repo, run the checks that meta.json
 records as having detected it, require VIOLATION again, restore /repo."""
-import json, os, subprocess, sys
+import json, os, re, subprocess, sys
 ROOT="/verif"
+ONLY=re.compile(os.environ.get("SEEDS", "."))   # e.g. SEEDS='^C(14|15|19|20)' for a targeted regression
 def sh(c): return subprocess.run(c, shell=True, capture_output=True, text=True)
 missed=[]; n=0
 for d in sorted(os.listdir(f"{ROOT}/seeded")):
     mp=f"{ROOT}/seeded/{d}/meta.json"
-    if not os.path.exists(mp): continue
+    if not os.path.exists(mp) or not ONLY.search(d): continue
     m=json.load(open(mp))
     checks=[c for c,v in m.get("checks_run",{}).items() if v.get("detected")]
     if not checks: checks=[m["property"]]
